@@ -231,6 +231,15 @@ def run_case(spec):
 
                 culprit = optcommon.attribute(m, o, passes, fired, known, first=("fold:" if kind == "dtype" else None))
                 key = c03core._key(culprit, kind)
+                if culprit and culprit.startswith("rule:Expand") and kind == "shape":
+                    # the listed defect of the expand-before-binary rules changes the RANK of the result (expand shape with more
+                    # leading dims than both operands); a result of the same rank with another dimension is something else
+                    ranks = None
+                    try:
+                        ranks = [(np.asarray(a).ndim, np.asarray(c).ndim) for a, c in zip(o1, mask_nd(runner.ort_run(m2, f)[1]))]
+                    except Exception:
+                        pass
+                    key += ";sym=" + ("rank_change" if ranks is None or any(p != q for p, q in ranks) else "dim_change")
                 if key in reported:
                     continue
                 reported.add(key)
